@@ -159,3 +159,21 @@ func (r *Replica) ZZFold(source, target string) {
 		}
 	}
 }
+
+// ZZChainAcyclic: walking the parent links from the head ends within as many steps
+// as there are disks (Replica.Chain / DisplayChain walk these links without a bound,
+// holding the replica lock).
+func (s *Server) ZZChainAcyclic() bool {
+	if s.r == nil {
+		return true
+	}
+	cur := s.r.info.Head
+	for i := 0; i <= len(s.r.diskData)+1; i++ {
+		d, ok := s.r.diskData[cur]
+		if !ok || d.Parent == "" {
+			return true
+		}
+		cur = d.Parent
+	}
+	return false
+}
